@@ -209,3 +209,19 @@ macro_rules! _telemetry_tags {
 }
 
 pub(crate) use _telemetry_tags as telemetry_tags;
+
+#[cfg(metrics_verif)]
+impl TelemetryUpdate {
+    /// Verification hook: the counters a flush accumulates, as plain numbers.
+    pub fn verif_counts(&self) -> crate::verif::FlushCounts {
+        crate::verif::FlushCounts {
+            counter_contexts: self.counter_contexts,
+            gauge_contexts: self.gauge_contexts,
+            histogram_contexts: self.histogram_contexts,
+            counter_points: self.counter_points,
+            gauge_points: self.gauge_points,
+            histogram_points: self.histogram_points,
+            packets_dropped_serializer: self.packets_dropped_serializer,
+        }
+    }
+}
